@@ -354,18 +354,22 @@ def kill_points(calls, canon: Canon):
 
 # --------------------------------------------------------------------------------------------- the workload process
 
+# The source of the cached function contains 2-, 3- and 4-byte UTF-8 characters (docstring, identifier, string constant):
+# func_code.py is written in place, so a kill can tear it inside a character.
 MOD_TEMPLATE = '''CALLS = []
 
 
 def f(x):
+    """Doubles x (2π, ☃, 😀)."""
+    naïve = "☃😀π"
     CALLS.append(x)
-    return [x, x * 2, "{version}"]
+    return [x, x * 2, "{version}"] if naïve else None
 '''
 
 
 def write_module(moddir, version):
     os.makedirs(moddir, exist_ok=True)
-    with open(os.path.join(moddir, "wl_mod.py"), "w") as fh:
+    with open(os.path.join(moddir, "wl_mod.py"), "w", encoding="utf-8") as fh:
         fh.write(MOD_TEMPLATE.format(version=version))
 
 
